@@ -84,6 +84,15 @@ def impl_batch(case):
 
 # ---------------------------------------------------------------------------------------------------------
 def rand_vals_row(rng, m, pn, ties):
+    if not ties and rng.random() < 0.3:
+        # wide dynamic range: one or two entries of order 1, the others down to 1e-17 and distinct (differences far below the resolution of
+        # anything that is added to or subtracted from the largest value)
+        tiny = [k * 1e-17 for k in rng.sample(range(1, 40), m)]
+        row = [None if rng.random() < pn else tiny[j] * rng.choice([1.0, 1.0, 1e3, 1e9]) for j in range(m)]
+        for j in rng.sample(range(m), min(m, rng.randint(1, 2))):
+            if row[j] is not None:
+                row[j] = rng.choice([1.0, 2.5, 1000.0])
+        return row
     row = []
     for _ in range(m):
         if rng.random() < pn:
